@@ -412,8 +412,13 @@ def library_oracle_(ctx, floor0):
                     num_filts=nf, rate=rate, low=lo, high=hi, frame_length_ms=flen, frame_shift_ms=shift, L=L, S=S, D=D,
                     style=style, kaldi=kaldi, window=wname, N=N, **flags)
         ctx.case(case, kind="library:" + kind)
+        strict = bool(flags["use_log"]) and level in (0.0, 1e-4)
+        if strict:
+            case["caller_fp_state"] = "errstate(divide/invalid=raise) + RuntimeWarning as error"
+            ctx.count("strict_fp_state")
         try:
-            got = comp.compute_full(x)
+            with common.strict_fp(strict):
+                got = comp.compute_full(x)
         except Exception as e:
             ctx.violation(case, "no exception", "%s: %s" % (type(e).__name__, e), "compute_full raises",
                           tags=dict(clause="raises", exc=type(e).__name__))
